@@ -399,6 +399,9 @@ def _prep_gauge(S, rng, canonical):
     return "none"
 
 
+ZERO_STEP_METHODS = ("prop_and_compress", "prop_and_compress_tdrk", "prop_and_compress_tdrk4", "tdvp_ps", "tdvp_ps2")
+
+
 def chain_ops(env):
     """every entry prepares one library call: returns None (not applicable) or
     (opname, argument names, regauge_ok, call, extra); `call()` performs the library call(s) only."""
@@ -600,7 +603,7 @@ def chain_ops(env):
         s = env.pick(env.states(mps_only=True))
         return "MpDm.from_mps", [s], False, lambda: MpDm.from_mps(env.objs[s]), {}
 
-    def op_evolve(method=None, imag=None, s=None):
+    def op_evolve(method=None, imag=None, s=None, zero=False):
         forced = method is not None
         if s is None:
             s = env.pick(env.states())
@@ -614,7 +617,11 @@ def chain_ops(env):
         adaptive = bool(rng.random() < 0.3) and method in ("prop_and_compress", "prop_and_compress_tdrk", "tdvp_ps")
         step = 0.05 if forced else float(rng.choice([0.05, 0.2]))
         dt = -1j * step if imag else step
-        kw = dict(adaptive=adaptive, guess_dt=dt / 2)
+        zero_step = method in ZERO_STEP_METHODS and (zero or ((not forced) and bool(rng.random() < 0.12)))
+        if zero_step:           # a step of exactly zero length: still a NEW object, the input untouched
+            adaptive = False
+            step, dt = 0.0, 0.0
+        kw = dict(adaptive=adaptive, guess_dt=(dt / 2 if not zero_step else 0.01))
         if method == "prop_and_compress_tdrk":
             kw["rk_solver"] = "RKF45" if adaptive else str(rng.choice(["C_RK4", "Heun_RK2", "Forward_Euler"]))
         if method in ("tdvp_mu_vmf", "tdvp_vmf") and rng.random() < 0.3:
@@ -650,7 +657,7 @@ def chain_ops(env):
             S.compress_config = CompressConfig(CompressCriteria.fixed, max_bonddim=16)
         norm = bool(rng.random() < 0.7)
         prep = _prep_gauge(S, rng, canonical=(method in REGAUGE_EVOLVE and rng.random() < 0.6))
-        extra = dict(method=method, imag=imag, adaptive=adaptive, dt=repr(dt), H=h, compress=mode, prep=prep,
+        extra = dict(method=method, imag=imag, adaptive=adaptive, dt=repr(dt), H=h, compress=mode, prep=prep, zero_step=zero_step,
                      cls=type(S).__name__, normalize=norm, rk=kw.get("rk_solver"), ivp=kw.get("ivp_solver", "krylov"))
         return f"evolve:{method}", [s, h], method in REGAUGE_EVOLVE, lambda: S.evolve(H, dt, normalize=norm), extra
 
@@ -729,6 +736,8 @@ def run_chain_call(run, env, thunk):
     if time.time() - tc > 2.0:
         SLOW.append((name, round(time.time() - tc, 1), dict(extra), [int(b) for b in env.objs[args[0]].bond_dims], env.kind))
     run.count(f"op:{name}")
+    if isinstance(extra, dict) and extra.get("zero_step"):
+        run.count("evolve:zero-step")
     after = {k: Snap(v) for k, v in env.objs.items()}
     if exc is not None:
         run.count(f"rejected:{name}:{type(exc).__name__}")
@@ -1446,6 +1455,9 @@ def search(run, rng, quick):
                 for imag in (False, True):
                     tgt = "S0" if rng.random() < 0.7 else env.pick(env.states())
                     sweep.append(lambda meth=meth, imag=imag, tgt=tgt: env.op_evolve(meth, imag, tgt))
+            for meth in [ZERO_STEP_METHODS[int(i)] for i in rng.choice(len(ZERO_STEP_METHODS), size=2, replace=False)]:
+                tgt = env.pick(env.states())          # a step of zero length
+                sweep.append(lambda meth=meth, tgt=tgt: env.op_evolve(meth, False, tgt, zero=True))
             if env.holstein:
                 for h in ("H0", "H1"):
                     for tgt in ("S1", "R0"):
